@@ -224,7 +224,10 @@ def expected_icdf(funcs, k, scale, shape, u):
 
 
 def gen_W_one(rng, funcs, k=None):
-    for _ in range(200):
+    """The translated icdf is used only to steer towards small windows; when it
+    gives nothing usable (a mutated header) the last candidate is taken as it is."""
+    line = None
+    for _ in range(60):
         kk = k or rng.choice(KERNEL_NAMES)
         ew, ns = rng.choice(RESOLUTIONS)
         pct = rng.choice(PERCENTAGES)
@@ -232,6 +235,10 @@ def gen_W_one(rng, funcs, k=None):
         if kk in ("gamma", "exponential_power"):
             pct = rng.choice([0.6, 0.75, 0.9])
             ew, ns = rng.choice([(30, 30), (10, 30), (30, 10), (5, 5), (2.5, 7.5), (12, 8)])
+        style = rng.choice(["distinct", "distinct", "repeat"])
+        bs = gen_batches(rng, style, [1, 2, 3, 5, 7, 8, 10, 12, 16, 20, 25, 33, 40])
+        bs = bs[:3]
+        line = "W %s %s %s %s %s %s %s" % (kk, fnum(scale), fnum(shape), fnum(pct), fnum(ew), fnum(ns), batches_text(bs))
         d = expected_icdf(funcs, kk, scale, shape, pct)
         if d is not None:
             if not (d == d) or d < 0:
@@ -242,11 +249,8 @@ def gen_W_one(rng, funcs, k=None):
             # keep away from the rounding of the division (the model divides exactly)
             if min(abs(d / ew - round(d / ew)), abs(d / ns - round(d / ns))) < 1e-7:
                 continue
-        style = rng.choice(["distinct", "distinct", "repeat"])
-        bs = gen_batches(rng, style, [1, 2, 3, 5, 7, 8, 10, 12, 16, 20, 25, 33, 40])
-        bs = bs[:3]
-        return "W %s %s %s %s %s %s %s" % (kk, fnum(scale), fnum(shape), fnum(pct), fnum(ew), fnum(ns), batches_text(bs))
-    raise RuntimeError("no window case found")
+        return line
+    return line
 
 
 U_GRID = [0.05, 0.1, 0.25, 0.5, 0.75, 0.9, 0.95, 0.99]
